@@ -1,18 +1,19 @@
 /-
 Expectation tables for the regenerated facts G4–G6 (DESIGN §2.3): the form of the source the
-hand-written models were derived from. A mismatch is a broken tie, reported by the check.
+hand-written models were derived from (receiver, parameters and locals renamed canonically by
+the extractor: `_recv`, `_p0…`, `_l0…`). A mismatch is a broken tie, reported by the check.
 -/
 import Sqroot.Gen.V1
 import Sqroot.Gen.V2
 import Sqroot.Gen.V3
 namespace Sqroot.Expect
 
-def waitSrc : String := "{ m.mu.Lock() defer m.mu.Unlock() if !m.done && m.maxLength <= index { chunkCount := index/kMemoizerChunkSize + 1 if chunkCount > kMaxChunks { chunkCount = kMaxChunks } m.maxLength = kMemoizerChunkSize * chunkCount m.mustGrow.Signal() } for !m.done && len(m.data) <= index { m.updateAvailable.Wait() } return m.data, len(m.data) > index }"
-def waitToGrowSrc : String := "{ m.mu.Lock() defer m.mu.Unlock() for len(m.data) >= m.maxLength { m.mustGrow.Wait() } }"
-def setDataSrc : String := "{ m.mu.Lock() defer m.mu.Unlock() m.data = data m.done = done m.updateAvailable.Broadcast() }"
-def run3Src : String := "{ var data []int8 for i := 0; i < kMaxChunks; i++ { m.waitToGrow() for j := 0; j < kMemoizerChunkSize; j++ { x := m.iter() if digitOutOfRange(x) { m.setData(data, true) return } data = append(data, int8(x)) } m.setData(data, false) } m.setData(data, true) }"
-def run12Src : String := "{ var data []int8 for i := 0; i < kMaxChunks; i++ { m.waitToGrow() for j := 0; j < kMemoizerChunkSize; j++ { x := m.iter() if x == -1 { m.setData(data, true) return } data = append(data, int8(x)) } m.setData(data, false) } m.setData(data, true) }"
-def newMemoSrc : String := "{ result := &memoizer{iter: iter} result.mustGrow = sync.NewCond(&result.mu) result.updateAvailable = sync.NewCond(&result.mu) go result.run() return result }"
+def waitSrc : String := "{ _recv . mu . Lock ( ) defer _recv . mu . Unlock ( ) if ! _recv . done && _recv . maxLength <= _p0 { _l0 := _p0 / kMemoizerChunkSize + 1 if _l0 > kMaxChunks { _l0 = kMaxChunks } _recv . maxLength = kMemoizerChunkSize * _l0 _recv . mustGrow . Signal ( ) } for ! _recv . done && len ( _recv . data ) <= _p0 { _recv . updateAvailable . Wait ( ) } return _recv . data , len ( _recv . data ) > _p0 }"
+def waitToGrowSrc : String := "{ _recv . mu . Lock ( ) defer _recv . mu . Unlock ( ) for len ( _recv . data ) >= _recv . maxLength { _recv . mustGrow . Wait ( ) } }"
+def setDataSrc : String := "{ _recv . mu . Lock ( ) defer _recv . mu . Unlock ( ) _recv . data = _p0 _recv . done = _p1 _recv . updateAvailable . Broadcast ( ) }"
+def run3Src : String := "{ var _l0 [ ] int8 for _l1 := 0 ; _l1 < kMaxChunks ; _l1 ++ { _recv . waitToGrow ( ) for _l2 := 0 ; _l2 < kMemoizerChunkSize ; _l2 ++ { _l3 := _recv . iter ( ) if digitOutOfRange ( _l3 ) { _recv . setData ( _l0 , true ) return } _l0 = append ( _l0 , int8 ( _l3 ) ) } _recv . setData ( _l0 , false ) } _recv . setData ( _l0 , true ) }"
+def run12Src : String := "{ var _l0 [ ] int8 for _l1 := 0 ; _l1 < kMaxChunks ; _l1 ++ { _recv . waitToGrow ( ) for _l2 := 0 ; _l2 < kMemoizerChunkSize ; _l2 ++ { _l3 := _recv . iter ( ) if _l3 == - 1 { _recv . setData ( _l0 , true ) return } _l0 = append ( _l0 , int8 ( _l3 ) ) } _recv . setData ( _l0 , false ) } _recv . setData ( _l0 , true ) }"
+def newMemoSrc : String := "{ _l0 := & memoizer { iter : _p0 } _l0 . mustGrow = sync . NewCond ( & _l0 . mu ) _l0 . updateAvailable = sync . NewCond ( & _l0 . mu ) go _l0 . run ( ) return _l0 }"
 
 def monitorSrc3 : List (String × String) :=
   [("memoizer.wait", waitSrc), ("memoizer.waitToGrow", waitToGrowSrc), ("memoizer.setData", setDataSrc),
